@@ -6,7 +6,7 @@ CONSTANTS
   Amts = {1, 2}
   Big = 5000
   Kinds = {"fwd", "back"}
-  Calls = {"none", "ok", "revert", "hookfail", "nestfail"}
+  Calls = {"none", "ok", "revert", "hookfail", "nestfail", "nestok"}
   Alts = {"none", "reenc", "amt", "seq", "sender", "src", "dst"}
   AckAlts = {"none", "ackcode", "ackrelayer"}
   Proofs = {"ok", "otherkey", "otherheight", "truncated", "empty", "rev0"}
